@@ -7,7 +7,7 @@ Open Scope Z_scope.
 (* the structural facts of klongpy/autograd.py and klongpy/dyads.py as the translator read them *)
 Definition src : srcflags :=
   mkFlags ng_input_conversion_copies ng_restore_in_finally nj_flattens_into_copy nj_perturbs_copies
-          grad_func_restores_in_finally mg_restores_in_finally mj_restores_in_finally.
+          grad_func_restores_in_finally mg_restores_in_finally mj_restores_in_finally fn_invoked_in_own_frame.
 
 (* The property, at full strength: for every gradient form, on either backend,
    for EVERY differentiated function (any behaviour at any call: raise, vector,
@@ -49,18 +49,18 @@ Print Assumptions C07_restore_with_writes.
 Theorem C07_restore_outside_alias : forall copies fin autograd O fm s0 lg r s',
   read_only O ->
   let fl := mkFlags copies fin nj_flattens_into_copy nj_perturbs_copies grad_func_restores_in_finally
-                    mg_restores_in_finally mj_restores_in_finally in
+                    mg_restores_in_finally mj_restores_in_finally fn_invoked_in_own_frame in
   safe_form s0 fl autograd fm ->
   run_form fl autograd O fm (mkSt s0 lg) = (r, s') -> store_preserved s0 (sto s').
 Proof.
   exact (fun copies fin autograd O fm s0 lg r s' HO =>
            restore_outside_alias
              (mkFlags copies fin nj_flattens_into_copy nj_perturbs_copies grad_func_restores_in_finally
-                      mg_restores_in_finally mj_restores_in_finally)
+                      mg_restores_in_finally mj_restores_in_finally fn_invoked_in_own_frame)
              autograd O fm s0 lg r s'
              (eq_refl : restores_in_finally
                           (mkFlags copies fin nj_flattens_into_copy nj_perturbs_copies grad_func_restores_in_finally
-                                   mg_restores_in_finally mj_restores_in_finally) = true) HO).
+                                   mg_restores_in_finally mj_restores_in_finally fn_invoked_in_own_frame) = true) HO).
 Qed.
 Print Assumptions C07_restore_outside_alias.
 
@@ -79,7 +79,7 @@ Print Assumptions C07_again.
 Definition r4_store : store :=
   mkStore [(1, VArr 0%nat)] [mkCell DF64 [3] [mkNum false 10 []; mkNum false 20 []; mkNum false 30 []]].
 Definition r4_oracle : oracle := fun k _ _ => (if Nat.eqb k 2 then FRaise 7 else FRet RScalar, []).
-Definition pinned_flags : srcflags := mkFlags false false true true true true true.
+Definition pinned_flags : srcflags := mkFlags false false true true true true true true.
 
 Theorem C07_alias_refuted :
   exists O fm r s',
@@ -112,11 +112,11 @@ Definition int_store : store :=
 Definition fail_first : oracle := fun k _ _ => (if Nat.eqb k 0 then FRaise 7 else FRet RScalar, []).
 
 Theorem C07_refuted_without_finally :
-  (exists r s', run_form (mkFlags true false true true false true true) false fail_first (FNablaSym 1) (mkSt int_store []) = (r, s')
+  (exists r s', run_form (mkFlags true false true true false true true true) false fail_first (FNablaSym 1) (mkSt int_store []) = (r, s')
                 /\ lookup 1 (vars (sto s')) <> lookup 1 (vars int_store)) /\
-  (exists r s', run_form (mkFlags true false true true true false true) true fail_first (FGradMulti [1; 2]) (mkSt int_store []) = (r, s')
+  (exists r s', run_form (mkFlags true false true true true false true true) true fail_first (FGradMulti [1; 2]) (mkSt int_store []) = (r, s')
                 /\ lookup 2 (vars (sto s')) = Some (VTen 2%nat true)) /\
-  (exists r s', run_form (mkFlags true false true true true true false) false fail_first (FJacMulti [1; 2]) (mkSt int_store []) = (r, s')
+  (exists r s', run_form (mkFlags true false true true true true false true) false fail_first (FJacMulti [1; 2]) (mkSt int_store []) = (r, s')
                 /\ lookup 1 (vars (sto s')) <> lookup 1 (vars int_store)).
 Proof.
   split; [|split]; eexists; eexists; (split; [vm_compute; reflexivity|]); try discriminate; reflexivity.
@@ -125,13 +125,13 @@ Qed.
 (* numeric_jacobian is safe because it perturbs copies: with neither the flattening copy
    nor the x.copy()s, p∂g writes into p (a float64 array) even when g never fails. *)
 Theorem C07_refuted_without_jacobian_copies :
-  exists r s', run_form (mkFlags true false false false true true true) false (fun _ _ _ => (FRet (RArr 3), [])) (FJacVar 1) (mkSt r4_store []) = (r, s')
+  exists r s', run_form (mkFlags true false false false true true true true) false (fun _ _ _ => (FRet (RArr 3), [])) (FJacVar 1) (mkSt r4_store []) = (r, s')
                /\ r = Ok tt /\ nth_error (heap (sto s')) 0 <> nth_error (heap r4_store) 0.
 Proof. eexists; eexists. split; [vm_compute; reflexivity|]. split; [reflexivity | discriminate]. Qed.
 
 (* Non-vacuity: a failing run of each kind exists and is covered by the theorems. *)
 Example C07_example_failing_runs :
-  let fl := mkFlags true false true true true true true in
+  let fl := mkFlags true false true true true true true true in
   (exists s', run_form fl false r4_oracle (FGradVar 1) (mkSt r4_store []) = (Err (ERaise 7), s') /\ length (log s') = 3%nat) /\
   (exists s', run_form fl false (fun _ _ _ => (FRet (RArr 2), [])) (FNablaSym 1) (mkSt int_store []) = (Err ENonScalar, s')) /\
   (exists s', run_form fl true (fun _ _ _ => (FRet (RTen 1 true), [])) (FGradMulti [1; 2]) (mkSt int_store []) = (Ok tt, s')
@@ -150,7 +150,7 @@ Qed.
 Example C07_example_function_with_writes :
   let O : oracle := fun k _ _ => (if Nat.eqb k 1 then FRaise 7 else FRet RScalar, [(2, VInt (Z.of_nat (S k)))]) in
   writes_in [2] O /\ params_not_written [2] (FNablaSym 1) /\
-  exists s', run_form (mkFlags true false true true true true true) false O (FNablaSym 1) (mkSt int_store []) = (Err (ERaise 7), s')
+  exists s', run_form (mkFlags true false true true true true true true) false O (FNablaSym 1) (mkSt int_store []) = (Err (ERaise 7), s')
              /\ lookup 2 (vars (sto s')) = Some (VInt 2) /\ lookup 1 (vars (sto s')) = lookup 1 (vars int_store).
 Proof.
   cbv zeta. split; [|split].
